@@ -29,12 +29,12 @@ type Rec struct {
 	// StopAtEffect raises Stopped from inside platform effect number k (1-based); 0 = never.
 	StopAtEffect int
 	// YieldBudget raises Stopped once that many yields happened (a legitimate external stop).
-	YieldBudget int
-	BudgetHit   bool
+	YieldBudget     int
+	BudgetHit       bool
 	YieldsAfterStop int
-	MaxEvents   int // stop recording (and raise Stopped) beyond this many events; 0 = 100000
-	Ev          *evaluator.Evaluator
-	OnYield     func(n int)
+	MaxEvents       int // stop recording (and raise Stopped) beyond this many events; 0 = 100000
+	Ev              *evaluator.Evaluator
+	OnYield         func(n int)
 }
 
 func (r *Rec) add(s string) {
@@ -97,17 +97,17 @@ func (r *Rec) Yield() {
 	}
 }
 
-func (r *Rec) Move(x, y float64)   { r.add("move " + f(x) + " " + f(y)) }
-func (r *Rec) Line(x, y float64)   { r.add("line " + f(x) + " " + f(y)) }
-func (r *Rec) Rect(x, y float64)   { r.add("rect " + f(x) + " " + f(y)) }
-func (r *Rec) Circle(x float64)    { r.add("circle " + f(x)) }
-func (r *Rec) Width(x float64)     { r.add("width " + f(x)) }
-func (r *Rec) Color(s string)      { r.add("color " + strconv.Quote(s)) }
-func (r *Rec) Clear(s string)      { r.add("clear " + strconv.Quote(s)) }
-func (r *Rec) Stroke(s string)     { r.add("stroke " + strconv.Quote(s)) }
-func (r *Rec) Fill(s string)       { r.add("fill " + strconv.Quote(s)) }
-func (r *Rec) Linecap(s string)    { r.add("linecap " + strconv.Quote(s)) }
-func (r *Rec) Text(s string)       { r.add("text " + strconv.Quote(s)) }
+func (r *Rec) Move(x, y float64)         { r.add("move " + f(x) + " " + f(y)) }
+func (r *Rec) Line(x, y float64)         { r.add("line " + f(x) + " " + f(y)) }
+func (r *Rec) Rect(x, y float64)         { r.add("rect " + f(x) + " " + f(y)) }
+func (r *Rec) Circle(x float64)          { r.add("circle " + f(x)) }
+func (r *Rec) Width(x float64)           { r.add("width " + f(x)) }
+func (r *Rec) Color(s string)            { r.add("color " + strconv.Quote(s)) }
+func (r *Rec) Clear(s string)            { r.add("clear " + strconv.Quote(s)) }
+func (r *Rec) Stroke(s string)           { r.add("stroke " + strconv.Quote(s)) }
+func (r *Rec) Fill(s string)             { r.add("fill " + strconv.Quote(s)) }
+func (r *Rec) Linecap(s string)          { r.add("linecap " + strconv.Quote(s)) }
+func (r *Rec) Text(s string)             { r.add("text " + strconv.Quote(s)) }
 func (r *Rec) Gridn(u float64, c string) { r.add("gridn " + f(u) + " " + strconv.Quote(c)) }
 func (r *Rec) Poly(v [][]float64) {
 	var b strings.Builder
@@ -150,31 +150,31 @@ func (r *Rec) Font(props map[string]any) {
 
 // Outcome of one execution.
 type Outcome struct {
-	Events   []string
-	Err      error
-	ErrText  string
-	Class    string // ok | parse-error | panic:<kind> | exit:<n> | tests-failed | stopped | internal | gopanic | other-error
-	GoPanic  string // recovered Go panic value
-	Site     string // first frame inside the repository for a Go panic
-	Yields   int
-	Rec      *Rec
-	Prog     *parser.Program
-	Ev       *evaluator.Evaluator
+	Events  []string
+	Err     error
+	ErrText string
+	Class   string // ok | parse-error | panic:<kind> | exit:<n> | tests-failed | stopped | internal | gopanic | other-error
+	GoPanic string // recovered Go panic value
+	Site    string // first frame inside the repository for a Go panic
+	Yields  int
+	Rec     *Rec
+	Prog    *parser.Program
+	Ev      *evaluator.Evaluator
 }
 
 // Opts for Run.
 type Opts struct {
-	Inputs       []string
-	RandSeed     int64
-	YieldBudget  int
-	StopAtYield  int
-	StopAtEffect int
-	MarkYields   bool
-	MaxEvents    int
-	Events       []evaluator.Event // delivered after Eval (only to existing handlers)
-	FailFast     bool
+	Inputs        []string
+	RandSeed      int64
+	YieldBudget   int
+	StopAtYield   int
+	StopAtEffect  int
+	MarkYields    bool
+	MaxEvents     int
+	Events        []evaluator.Event // delivered after Eval (only to existing handlers)
+	FailFast      bool
 	NoTestSummary bool
-	OnYield      func(n int)
+	OnYield       func(n int)
 	// Attach is called with the evaluator before evaluation (to register hook observers).
 	Attach func(ev *evaluator.Evaluator)
 }
